@@ -486,12 +486,24 @@ def to_case_c04(ob):
     if getattr(ob, "verdict", None) != "refuted":
         # behind a candidate / model-less obligation: every small geometry; a first utterance that ends without a final frame, with one, too
         # short for any; then an utterance whose last chunk is a single sample after a frame-sized one (the end reflection then reaches
-        # into what the buffer remembers, so stale history shows)
+        # into what the buffer remembers, so stale history shows), one SHORTER than a frame (its frames exist by reflection only), and a
+        # float64 utterance fed in small chunks after a float32 one (nothing of the first one's precision may survive)
+        sid = [100]
+
+        def utt(chunks, dt):
+            out = []
+            for n in chunks:
+                out.append(["chunk", int(n), sid[0], dt])
+                sid[0] += 1
+            return out + [["finalize"]]
         for l2 in range(1, 9):
             for s2 in range(1, l2 + 1):
                 b = dict(base, frame_length=l2, frame_shift=s2)
+                seconds = [[l2, 1], [l2, 2], [l2 // 2 + 1], [max(1, l2 - 1)], [1] * max(1, l2 - 1), [2] * (l2 + 1)]
                 for T in sorted({0, 1, l2 // 2, l2 // 2 + 1, l2, l2 + 1, l2 + s2, 2 * l2 + 1}):
-                    for n2, c2 in sorted({(l2 + 1, l2), (l2 + 2, l2), (l2 // 2 + 1, l2), (max(1, l2 - 1), l2), (max(1, l2 - 1), 1)}):
-                        # (also a second utterance SHORTER than a frame: its frames exist by reflection only)
-                        cases.append(dict(b, ops=[["chunk", T, max(1, T), "f8"], ["finalize"], ["chunk", n2, c2, "f8"], ["finalize"]]))
+                    for sec in seconds:
+                        cases.append(dict(b, ops=utt([T], "f8") + utt(sec, "f8")))
+                for T in (l2, 2 * l2 + 1):
+                    cases.append(dict(b, ops=utt([T], "f4") + utt([1] * (2 * l2 + 2), "f8")))
+                    cases.append(dict(b, ops=utt([2] * (l2 + 1), "f4") + utt([2] * (l2 + 2), "f8")))
     return cases
